@@ -59,6 +59,28 @@ def run(ctx):
         for m in r.get("mism") or []:
             common.report(ctx, "%s:%s" % (m["api"].split("@")[0] + "@short-reads", m["kind"]), "%s on bytes [%s]: want %s, got %s" % (m["api"], m["hex"], m["want"], m["got"]),
                           dict(vector=c["f"], schedule=c["sched"], spec_ok=c["ok"], spec_chars=c["chars"], mismatch=m))
+    # ---- "whatever its size": valid vectors tiled far beyond the sizes of ordinary programs (64 KiB .. 16 MiB), with a marker at the very end
+    units = [v for v in vecs if v["ok"] and v["chars"] and not v["bom"] and all("X" != y for y in v["f"])]
+    by_width = {}
+    for v in units:
+        by_width.setdefault(tuple(len(ch) for ch in v["chars"]), []).append(v)
+    bcases = []
+    sizes = [(1 << 16) + 1, (1 << 20) + 3, (4 << 20) + 5] + ([(16 << 20) + 1] if ctx.tier != "quick" else [(8 << 20) + 2])
+    for w in ((1,), (2,), (3,), (4,), (1, 3), (4, 1, 2)):
+        if w not in by_width: continue
+        for sz in sizes:
+            v = rnd.choice(by_width[w])
+            bcases.append(dict(id=len(bcases), f=v["f"], chars=v["chars"], size=sz, rep=rnd.randrange(6), bom=bool(len(bcases) % 2)))
+    bres = common.run_harness(ctx, znh, "filebig", bcases, timeout=3000, args=["-t", "120", "-j", "4"])
+    if len(bres) != len(bcases):
+        raise common.NoVerdict("harness returned %d results for %d big-file cases" % (len(bres), len(bcases)))
+    for r in bres:
+        c = bcases[r["id"]]
+        if r["obs"] != "done":
+            common.report(ctx, "harness-big:%s" % r["obs"], "driver observation %s: %s" % (r["obs"], r.get("detail", "")), dict(case=c, result=r)); continue
+        runs += r["runs"]
+        for m in r.get("mism") or []:
+            common.report(ctx, "%s:%s" % (m["api"], m["kind"]), "%s, %s: want %s, got %s" % (m["api"], m["hex"], m["want"], m["got"]), dict(case=c, mismatch=m))
     # ---- loads in flight at the same time (ZnFileTwo): intended design holds, the shared-buffer deviation is refuted ----
     common.tlc(ctx, "MC_ZnFileTwo", "MC_ZnFileTwo.cfg", timeout=600)
     _, dinfo = common.tlc(ctx, "MC_ZnFileTwo", "MC_ZnFileTwo_shared.cfg", timeout=600, allow_violation=True)
@@ -96,7 +118,7 @@ def run(ctx):
              "ByteStream.ReadAll and LoadFile().Execute; every valid vector also TILED into a file of more than two read blocks (ConcatLemma checked by TLC), plain and behind a byte-order mark; "
              "short reads (ZnFileShort): every read delivers any number 1..3 (4) of bytes - TLC checks the refinement under every schedule and emits (file, schedule), a seeded sample of them is replayed through a FIFO "
              "whose writer hands out exactly those portions (ReadAll and a Read(4096) loop); loads in flight at the same time (ZnFileTwo: own buffer per load holds, one shared block buffer refuted by TLC): "
-             "6 goroutines x 40 rounds decode their own tiled file each while the others decode theirs; non-trivial = at least 2 bytes and not pure ASCII" % (nreps, bss),
+             "6 goroutines x 40 rounds decode their own tiled file each while the others decode theirs; big files: vectors of every character width tiled to 64 KiB, 1 MiB, 4 MiB, 8 (16) MiB (+ a marker at the end), as a raw file and as a program whose last statement must run; non-trivial = at least 2 bytes and not pure ASCII" % (nreps, bss),
         vectors=len(vecs), valid_vectors=len(valid), impl_runs=runs, exhaustive=True,
         checker_cmd="tlc -config %s ZnFile.tla" % cfg,
     )
